@@ -45,3 +45,128 @@ Print Assumptions C07_slot.
 Example C07_nonvacuous : nth_error (pairs 5) (cidx_nat 5 1 3) = Some (1, 3) /\ pairs 4 = [(0,1);(0,2);(0,3);(1,2);(1,3);(2,3)].
 Proof. split; reflexivity. Qed.
 Print Assumptions C07_nonvacuous.
+
+(* ---- the observable consequence, Method::Single, EVERY entry point (linkage, mst, nnchain,
+   generic, primitive), any carrier whose `<` is a strict weak order, finite input ---- *)
+Require Import KV.Model.Methods KV.Model.State KV.Model.Dendrogram KV.Model.Linkage
+  KV.Proofs.RelabelWF KV.Proofs.CriteriaRun KV.Proofs.AgreeSingle KV.Proofs.SlotProbe.
+
+(* the cell of the pair (a, b), a < b, IS entry number cidx(a, b) of the input slice *)
+Theorem C07_cell_is_entry : forall (T : Type) (p : profile) (m : list T) n (M0 : cmat T) (a b : nat) (dflt : T),
+  prologue p m n = Ok M0 -> a < b ->
+  cell_or dflt M0 a b = match nth_error m (cidx_nat (m_obs M0) a b) with Some v => v | None => dflt end.
+Proof. exact cell_is_entry. Qed.
+Print Assumptions C07_cell_is_entry.
+
+(* if the entry of the pair (a, b) is strictly smaller than every other entry, the first returned
+   step merges exactly a and b, at a value that compares equal to that entry *)
+Theorem C07_single_first_step : forall (T : Type) (F : fops T) (p : profile),
+  (forall a, f_ltb F a a = false) ->
+  (forall a b c, f_ltb F a b = true -> f_ltb F b c = true -> f_ltb F a c = true) ->
+  (forall a b c, f_ltb F a b = false -> f_ltb F b c = false -> f_ltb F a c = false) ->
+  (forall a b, f_eqb F a b = true -> f_ltb F b a = false) ->
+  (forall a, f_eqb F a a = true) ->
+  forall (a0 : algo) s d (m : list T) n s' d' m' M0 (a b : nat), (n < two32)%N ->
+  run_with F p a0 Single s d m n = Ok (s', d', m') ->
+  prologue p m n = Ok M0 ->
+  Forall (fun v => f_ltb F v (f_inf F) = true) m ->
+  a < b -> b < m_obs M0 ->
+  (forall x y, x < y -> y < m_obs M0 -> ~ (x = a /\ y = b) ->
+     f_ltb F (cell_or (f_inf F) M0 a b) (cell_or (f_inf F) M0 x y) = true) ->
+  exists t, nth_error (d_steps d') 0 = Some t /\ s_c1 t = a /\ s_c2 t = b
+    /\ eqv (f_ltb F) (s_dis t) (cell_or (f_inf F) M0 a b).
+Proof. exact single_first_step_probe. Qed.
+Print Assumptions C07_single_first_step.
+
+(* ... and the second step then joins the clusters containing the pair (c, e) of the second-smallest
+   entry, at a value that compares equal to that entry *)
+Theorem C07_single_second_step : forall (T : Type) (F : fops T) (p : profile),
+  (forall a, f_ltb F a a = false) ->
+  (forall a b c, f_ltb F a b = true -> f_ltb F b c = true -> f_ltb F a c = true) ->
+  (forall a b c, f_ltb F a b = false -> f_ltb F b c = false -> f_ltb F a c = false) ->
+  (forall a b, f_eqb F a b = true -> f_ltb F b a = false) ->
+  (forall a, f_eqb F a a = true) ->
+  forall (a0 : algo) s d (m : list T) n s' d' m' M0 (a b c e : nat), (n < two32)%N ->
+  run_with F p a0 Single s d m n = Ok (s', d', m') ->
+  prologue p m n = Ok M0 ->
+  Forall (fun v => f_ltb F v (f_inf F) = true) m ->
+  a < b -> b < m_obs M0 -> c < e -> e < m_obs M0 -> ~ (c = a /\ e = b) ->
+  (forall x y, x < y -> y < m_obs M0 -> ~ (x = a /\ y = b) ->
+     f_ltb F (cell_or (f_inf F) M0 a b) (cell_or (f_inf F) M0 x y) = true) ->
+  (forall x y, x < y -> y < m_obs M0 -> ~ ((x = a /\ y = b) \/ (x = c /\ y = e)) ->
+     f_ltb F (cell_or (f_inf F) M0 c e) (cell_or (f_inf F) M0 x y) = true) ->
+  exists t1, nth_error (d_steps d') 1 = Some t1
+    /\ labi (m_obs M0) (d_steps d') 1 c <> labi (m_obs M0) (d_steps d') 1 e
+    /\ labi (m_obs M0) (d_steps d') 2 c = labi (m_obs M0) (d_steps d') 2 e
+    /\ ((s_c1 t1 = labi (m_obs M0) (d_steps d') 1 c /\ s_c2 t1 = labi (m_obs M0) (d_steps d') 1 e)
+        \/ (s_c1 t1 = labi (m_obs M0) (d_steps d') 1 e /\ s_c2 t1 = labi (m_obs M0) (d_steps d') 1 c))
+    /\ eqv (f_ltb F) (s_dis t1) (cell_or (f_inf F) M0 c e).
+Proof. exact single_second_step_probe. Qed.
+Print Assumptions C07_single_second_step.
+
+(* the two float carriers of the correspondence check, every finite input *)
+Require Import KV.Run.F64 KV.Run.F32 KV.Proofs.MstPrim KV.Proofs.FloatInstances.
+
+Theorem C07_single_first_step_f64 : forall (p : profile) (a0 : algo) s d (m : list PrimFloat.float) (n : N) s' d' m' M0 (a b : nat),
+  (n < two32)%N ->
+  run_with F64 p a0 Single s d m n = Ok (s', d', m') ->
+  prologue p m n = Ok M0 ->
+  Forall (fun v => f_ltb F64 v (f_inf F64) = true) m ->
+  a < b -> b < m_obs M0 ->
+  (forall x y, x < y -> y < m_obs M0 -> ~ (x = a /\ y = b) ->
+     f_ltb F64 (dcell (kops_of F64 Single) M0 a b) (dcell (kops_of F64 Single) M0 x y) = true) ->
+  exists t, nth_error (d_steps d') 0 = Some t /\ s_c1 t = a /\ s_c2 t = b
+    /\ eqv (f_ltb F64) (s_dis t) (dcell (kops_of F64 Single) M0 a b).
+Proof. exact single_first_step_probe_f64. Qed.
+Print Assumptions C07_single_first_step_f64.
+
+Theorem C07_single_first_step_f32 : forall (p : profile) (a0 : algo) s d (m : list f32) (n : N) s' d' m' M0 (a b : nat),
+  (n < two32)%N ->
+  run_with F32 p a0 Single s d m n = Ok (s', d', m') ->
+  prologue p m n = Ok M0 ->
+  Forall (fun v => f_ltb F32 v (f_inf F32) = true) m ->
+  a < b -> b < m_obs M0 ->
+  (forall x y, x < y -> y < m_obs M0 -> ~ (x = a /\ y = b) ->
+     f_ltb F32 (dcell (kops_of F32 Single) M0 a b) (dcell (kops_of F32 Single) M0 x y) = true) ->
+  exists t, nth_error (d_steps d') 0 = Some t /\ s_c1 t = a /\ s_c2 t = b
+    /\ eqv (f_ltb F32) (s_dis t) (dcell (kops_of F32 Single) M0 a b).
+Proof. exact single_first_step_probe_f32. Qed.
+Print Assumptions C07_single_first_step_f32.
+
+Theorem C07_single_second_step_f64 : forall (p : profile) (a0 : algo) s d (m : list PrimFloat.float) (n : N) s' d' m' M0 (a b c e : nat),
+  (n < two32)%N ->
+  run_with F64 p a0 Single s d m n = Ok (s', d', m') ->
+  prologue p m n = Ok M0 ->
+  Forall (fun v => f_ltb F64 v (f_inf F64) = true) m ->
+  a < b -> b < m_obs M0 -> c < e -> e < m_obs M0 -> ~ (c = a /\ e = b) ->
+  (forall x y, x < y -> y < m_obs M0 -> ~ (x = a /\ y = b) ->
+     f_ltb F64 (dcell (kops_of F64 Single) M0 a b) (dcell (kops_of F64 Single) M0 x y) = true) ->
+  (forall x y, x < y -> y < m_obs M0 -> ~ ((x = a /\ y = b) \/ (x = c /\ y = e)) ->
+     f_ltb F64 (dcell (kops_of F64 Single) M0 c e) (dcell (kops_of F64 Single) M0 x y) = true) ->
+  exists t1, nth_error (d_steps d') 1 = Some t1
+    /\ labi (m_obs M0) (d_steps d') 1 c <> labi (m_obs M0) (d_steps d') 1 e
+    /\ labi (m_obs M0) (d_steps d') 2 c = labi (m_obs M0) (d_steps d') 2 e
+    /\ ((s_c1 t1 = labi (m_obs M0) (d_steps d') 1 c /\ s_c2 t1 = labi (m_obs M0) (d_steps d') 1 e)
+        \/ (s_c1 t1 = labi (m_obs M0) (d_steps d') 1 e /\ s_c2 t1 = labi (m_obs M0) (d_steps d') 1 c))
+    /\ eqv (f_ltb F64) (s_dis t1) (dcell (kops_of F64 Single) M0 c e).
+Proof. exact single_second_step_probe_f64. Qed.
+Print Assumptions C07_single_second_step_f64.
+
+Theorem C07_single_second_step_f32 : forall (p : profile) (a0 : algo) s d (m : list f32) (n : N) s' d' m' M0 (a b c e : nat),
+  (n < two32)%N ->
+  run_with F32 p a0 Single s d m n = Ok (s', d', m') ->
+  prologue p m n = Ok M0 ->
+  Forall (fun v => f_ltb F32 v (f_inf F32) = true) m ->
+  a < b -> b < m_obs M0 -> c < e -> e < m_obs M0 -> ~ (c = a /\ e = b) ->
+  (forall x y, x < y -> y < m_obs M0 -> ~ (x = a /\ y = b) ->
+     f_ltb F32 (dcell (kops_of F32 Single) M0 a b) (dcell (kops_of F32 Single) M0 x y) = true) ->
+  (forall x y, x < y -> y < m_obs M0 -> ~ ((x = a /\ y = b) \/ (x = c /\ y = e)) ->
+     f_ltb F32 (dcell (kops_of F32 Single) M0 c e) (dcell (kops_of F32 Single) M0 x y) = true) ->
+  exists t1, nth_error (d_steps d') 1 = Some t1
+    /\ labi (m_obs M0) (d_steps d') 1 c <> labi (m_obs M0) (d_steps d') 1 e
+    /\ labi (m_obs M0) (d_steps d') 2 c = labi (m_obs M0) (d_steps d') 2 e
+    /\ ((s_c1 t1 = labi (m_obs M0) (d_steps d') 1 c /\ s_c2 t1 = labi (m_obs M0) (d_steps d') 1 e)
+        \/ (s_c1 t1 = labi (m_obs M0) (d_steps d') 1 e /\ s_c2 t1 = labi (m_obs M0) (d_steps d') 1 c))
+    /\ eqv (f_ltb F32) (s_dis t1) (dcell (kops_of F32 Single) M0 c e).
+Proof. exact single_second_step_probe_f32. Qed.
+Print Assumptions C07_single_second_step_f32.
